@@ -272,8 +272,8 @@ FragSort(c) == CASE CaseCtx(c) = "module" -> "mod" [] CaseCtx(c) = "behavior" ->
 \* ---------------------------------------------------------------- as-implemented deviations
 \* masks: fstr-literal-value = value and extent of the literal parts of an f-string unconstrained;
 \* fstr-literal = the literal parts may also be missing, and a replacement field with a format spec
-\* may carry conversion 'r'; fstr-literal-col = columns of the literal parts unconstrained;
-\* const-endcol = end position of string constants unconstrained; cols = all columns unconstrained.
+\* may carry conversion 'r'.  (Column offsets are not part of the property -- it promises the tree
+\* and the line numbers -- so differences in columns only are don't-cares of the harness.)
 \* (known findings: the ideal above is what the property demands; each deviation has a trigger
 \* predicate over the case and a description of what the implementation does instead, which the
 \* harness uses as a comparison mask / outcome override)
@@ -291,9 +291,6 @@ Deviations(c, ns) ==
   (IF Feat(c, "fstr-bang") /\ Has(ExplicitConv) THEN {[key |-> "fstring-conversion-crash", outcome |-> "crash:AttributeError", mask |-> ""]} ELSE {}) \cup
   (IF Feat(c, "fstr-escape") /\ Has(IsJS) THEN {[key |-> "fstring-escape-not-decoded", outcome |-> "", mask |-> "fstr-literal-value"]} ELSE {}) \cup
   (IF Feat(c, "fstr-debug") /\ Has(IsFV) THEN {[key |-> "fstring-debug-text-lost", outcome |-> "", mask |-> "fstr-literal"]} ELSE {}) \cup
-  (IF Feat(c, "fstr-braces") /\ Has(IsJS) THEN {[key |-> "fstring-brace-literal-col", outcome |-> "", mask |-> "fstr-literal-col"]} ELSE {}) \cup
-  (IF Feat(c, "concat") THEN {[key |-> "string-concat-end-col", outcome |-> "", mask |-> "const-endcol"]} ELSE {}) \cup
-  (IF Feat(c, "nonascii") THEN {[key |-> "nonascii-col-offset", outcome |-> "", mask |-> "cols"]} ELSE {}) \cup
   (IF Has(ElseChain) THEN {[key |-> "ternary-else-chain", outcome |-> "reject", mask |-> ""]} ELSE {}) \cup
   \* a behaviour keeps its local variables on the behaviour object; an annotated assignment, a `type`
   \* statement or a walrus binding such a variable is compiled to a tree that compile() refuses
